@@ -194,3 +194,54 @@ pub fn spec_judge(case: &Case, opts: &SpecOpts, tally: &mut Tally, on_step: &mut
         WalkEnd::Stopped(v) => v,
     }
 }
+
+/// "No mode changes" frame (C04-C07): hidden state is only observable through
+/// behaviour, so for a case whose last call consists only of functions for which
+/// `pure` holds (functions whose whole legitimate effect is on cells, soft-wrap marks,
+/// cursor and scrollback), the metamorphic pair
+///     (history, cmd, CAN ED2 CUP1;1)   vs   (history, CAN ED2 CUP1;1)
+/// must be observationally equivalent under the probe battery: after wiping the screen
+/// (same pen on both sides) and placing the cursor, nothing of the command's legitimate
+/// effect is left; any remaining difference is a mode, margin, tab stop, charset, pen or
+/// saved-context change. Returns None when the case does not have that shape.
+pub fn mode_frame_check(case: &Case, pure: &dyn Fn(&RefFn) -> bool, tally: &mut Tally) -> Option<Verdict> {
+    use crate::case::Call;
+    use crate::observe::{equivalent, Recipe};
+    let n = case.calls.len();
+    if n < 2 {
+        return None;
+    }
+    let mut p = crate::refparser::RefParser::new();
+    for c in &case.calls[..n - 1] {
+        if let Call::FeedStr(s) | Call::Feed(s) = c {
+            for ch in s.chars() {
+                p.feed(ch);
+            }
+        }
+    }
+    if p.state != crate::refparser::St::Ground {
+        return None;
+    }
+    let Call::FeedStr(last) = &case.calls[n - 1] else { return None };
+    let (fs, in_domain, st) = crate::walk::functions_of(last);
+    if !in_domain || st != crate::refparser::St::Ground || fs.is_empty() || !fs.iter().all(|f| pure(f)) {
+        return None;
+    }
+    let mk = |with_cmd: bool| -> Recipe {
+        let mut calls: Vec<Call> = case.calls[..n - 1].to_vec();
+        if with_cmd {
+            calls.push(case.calls[n - 1].clone());
+        }
+        calls.push(Call::FeedStr("\x18\x1b[2J\x1b[1;1H".to_string()));
+        Recipe { cols: case.cols, rows: case.rows, limit: case.limit, calls }
+    };
+    tally.steps += 1;
+    tally.class("mode_frame_checked");
+    if let Err(d) = equivalent(&mk(true), &mk(false), true) {
+        return Some(Verdict::fail(
+            "mode-frame",
+            format!("after {:?} plus a screen wipe and CUP, the terminal still differs from one that never received it (a mode, margin, tab stop, charset, pen or saved context changed): {} (after probes {:?})", fs, d.what, d.after),
+        ));
+    }
+    None
+}
